@@ -88,6 +88,7 @@ type Op struct {
 	Stable   int    `json:",omitempty"`
 	SetSize  bool   `json:",omitempty"`
 	Size     uint64 `json:",omitempty"`
+	Guard    bool   `json:",omitempty"` // SETATTR: guard.check = TRUE with a ctime that does not match
 	SetAtime int    `json:",omitempty"` // 0 don't, 1 server time, 2 client time
 	SetMtime int    `json:",omitempty"`
 	Atime    [2]uint32
@@ -589,6 +590,19 @@ func (m *Model) expect(op *Op) (int, effect) {
 		if op.SetSize {
 			if o.Kind != KReg || op.Size > m.Lim.MaxFileSize {
 				return expFail, nop
+			}
+		}
+		if op.Guard {
+			// a guard that does not match: refused without effect (NOT_SYNC), or
+			// ignored (this server) - in which case the request applies as usual
+			return expEither, func(r *Res, d *Diff) {
+				if r != nil && r.Stat != stOK {
+					return
+				}
+				plain := *op
+				plain.Guard = false
+				_, eff := m.expect(&plain)
+				eff(r, d)
 			}
 		}
 		return expOK, func(r *Res, d *Diff) {
